@@ -84,6 +84,41 @@ Theorem C05_thrift_size_message_alone : forall th_frame th_read,
 Proof. exact bin_size_alone_lemma. Qed.
 Print Assumptions C05_thrift_size_message_alone.
 
+(* full-duplex use of ONE protocol object: Pack (under packLock) and Unpack (under unpackLock)
+   share the ReadWriteCounter. For ANY interleaving of the counter events of the writing side
+   (WriteCounter.Zero, Write) with those of an Unpack that zeroes the read counter and reads
+   the frame in chunks of any sizes, the read counter - Size() of the received message - ends
+   at the number of bytes of the frame; symmetrically for the size Pack reports. So what the
+   connection sends while a frame arrives does not reach the decoded message (its fields are
+   a function of the frame alone: C05_thrift_bin_roundtrip; its size: here). *)
+Theorem C05_thrift_size_duplex : forall evs reads c,
+  forallb (fun e => is_rd e || is_wr e) evs = true ->
+  List.filter is_rd evs = unpack_events reads ->
+  c_read (crun c evs) = sumN reads.
+Proof. exact duplex_size_lemma. Qed.
+Print Assumptions C05_thrift_size_duplex.
+
+Theorem C05_thrift_pack_size_duplex : forall evs len c,
+  forallb (fun e => is_rd e || is_wr e) evs = true ->
+  List.filter is_wr evs = pack_events len ->
+  c_written (crun c evs) = len.
+Proof. exact duplex_pack_size_lemma. Qed.
+Print Assumptions C05_thrift_pack_size_duplex.
+
+(* a Pack that zeroes the whole shared counter breaks it (seeded change C05-r3m2) *)
+Theorem C05_thrift_zero_both_refuted :
+  exists (evs : list cev) (reads : list N),
+    (List.filter is_rd evs = unpack_events reads) /\
+    (c_read (crun (mkCtr 0 0) evs) <> sumN reads).
+Proof. exact duplex_zero_both_refuted. Qed.
+Print Assumptions C05_thrift_zero_both_refuted.
+
+Example C05_thrift_duplex_example :
+  let evs := [EvZeroR; EvRead 216; EvZeroW; EvWrite 50; EvRead 216] in
+  forallb (fun e => is_rd e || is_wr e) evs = true /\
+  List.filter is_rd evs = unpack_events [216; 216] /\ c_read (crun (mkCtr 7 9) evs) = 432.
+Proof. repeat split; reflexivity. Qed.
+
 (* the two defects that were repaired *)
 Theorem C05_thrift_size_cumulative_prefix_refuted :
   exists frames, nth 1 (sizes_cumulative 0 frames) 0 <> blen (nth 1 frames []).
